@@ -48,7 +48,7 @@ type Term struct {
 	Width int
 	Lo    *big.Int // optional interval (Int sort), nil = unbounded
 	Hi    *big.Int
-	emit  int // solver emission stamp
+	emit  int  // solver emission stamp
 	app   bool // contains an uninterpreted application (not evaluable from a variable model)
 }
 
